@@ -1,6 +1,6 @@
 (* C04 — Names in expressions resolve to the object Python scoping binds them to.  Property theorems only. *)
 From Coq Require Import List String Bool Arith.
-From Verif Require Import Lib.Sexp Model.C04_scope Proofs.C04_scope.
+From Verif Require Import Lib.Sexp Model.C04_scope Proofs.C04_scope Model.C04_expr Proofs.C04_expr.
 Import ListNotations.
 Open Scope string_scope. Open Scope list_scope. Open Scope nat_scope.
 
@@ -102,3 +102,100 @@ Theorem C04_attribute_chain_prefixes : forall c x k e,
   e_canonical c e = dotted_from (canonical c (aroot x)) (firstn k (asegs x)).
 Proof. exact attribute_chain_prefixes. Qed.
 Print Assumptions C04_attribute_chain_prefixes.
+
+(* ================================================================ part 2 (Model/C04_expr.v, Proofs/C04_expr.v)
+   The model describes Object.resolve and the expression builders in both forms: as the code stands, and with the three
+   prepared repairs (switches v_skip / v_locals / v_inner, read from the source under test on every run). *)
+
+(* the form without any switch is the model of part 1 *)
+Theorem C04_resolve_v_asis : forall c n, resolve_v false false c n = resolve c n.
+Proof. exact resolve_v_asis. Qed.
+Print Assumptions C04_resolve_v_asis.
+
+(* both forms of the walk: CPython's lookup unless the walk stops in a class body CPython does not consult *)
+Theorem C04_resolve_v_eq_python_modulo : forall sk c n,
+  wf_chain c = true -> gap_class_v sk c n = false ->
+  resolve_v sk false c n = py_lookup c n.
+Proof. exact resolve_v_eq_python_modulo. Qed.
+Print Assumptions C04_resolve_v_eq_python_modulo.
+
+(* THE AGREEMENT THEOREM WITHOUT A GAP HYPOTHESIS: the repaired walk, on every chain of classes and modules the visitor
+   can build (every stored expression outside an __init__ body) and every name, is CPython's lookup: innermost class
+   body, then the module globals; same path, NameResolutionError exactly when there is no static binding. *)
+Theorem C04_resolve_fixed_eq_python : forall c n,
+  wf_chain c = true -> no_functions c = true ->
+  resolve_v true false c n = py_lookup c n.
+Proof. exact resolve_fixed_eq_python. Qed.
+Print Assumptions C04_resolve_fixed_eq_python.
+
+Theorem C04_canonical_fixed_eq_python : forall c n,
+  wf_chain c = true -> no_functions c = true ->
+  canonical_v true c n = py_canonical false c n.
+Proof. exact canonical_fixed_eq_python. Qed.
+Print Assumptions C04_canonical_fixed_eq_python.
+
+(* what remains after the repair (C04-F6): the body of __init__ is resolved through the Function object, i.e. the class *)
+Theorem C04_init_body_leak_refuted :
+  exists c n, wf_chain c = true /\ resolve_v true false c n <> py_lookup c n /\ gap_class_v true c n = true.
+Proof. exact init_body_leak_refuted. Qed.
+Print Assumptions C04_init_body_leak_refuted.
+
+(* whole expressions, identifier by identifier (lambda parameters and defaults, comprehension targets, first iterable,
+   nested function scopes in class bodies, string annotations), for every form of the builders *)
+Theorem C04_expr_eq_python_modulo : forall v c e,
+  wf_chain c = true -> e_gap v c e = false -> g_names v c e = p_names c e.
+Proof. exact expr_eq_python_modulo. Qed.
+Print Assumptions C04_expr_eq_python_modulo.
+
+(* ... and without a gap hypothesis for the repaired code *)
+Theorem C04_expr_fixed_eq_python : forall c e,
+  wf_chain c = true -> no_functions c = true -> g_names v_fixed c e = p_names c e.
+Proof. exact expr_fixed_eq_python. Qed.
+Print Assumptions C04_expr_fixed_eq_python.
+
+(* each of the three repairs is necessary for the previous theorem *)
+Theorem C04_each_repair_needed :
+  (exists c e, wf_chain c = true /\ no_functions c = true /\ g_names (mkV false true true) c e <> p_names c e) /\
+  (exists c e, wf_chain c = true /\ no_functions c = true /\ g_names (mkV true false true) c e <> p_names c e) /\
+  (exists c e, wf_chain c = true /\ no_functions c = true /\ g_names (mkV true true false) c e <> p_names c e).
+Proof. exact each_repair_needed. Qed.
+Print Assumptions C04_each_repair_needed.
+
+(* C04-F4 on the code as it stands: a free name inside a comprehension of a class body is resolved through the class *)
+Theorem C04_asis_inner_scope_refuted :
+  exists c e, wf_chain c = true /\ no_functions c = true /\ g_names v_asis c e <> p_names c e /\ e_gap v_asis c e = true.
+Proof. exact asis_inner_scope_refuted. Qed.
+Print Assumptions C04_asis_inner_scope_refuted.
+
+(* `global n` in the referencing scope (no well-formedness needed): the module's binding unless a scope below answers *)
+Theorem C04_global_decl_modulo : forall sk c n,
+  gap_global c n = false -> resolve_v sk false c n = py_global c n.
+Proof. exact global_decl_modulo. Qed.
+Print Assumptions C04_global_decl_modulo.
+
+Theorem C04_global_decl_refuted :
+  exists c n, wf_chain c = true /\ no_functions c = true /\ resolve_v true false c n <> py_lookup_decl DGlobal c n /\ gap_global c n = true.
+Proof. exact global_decl_refuted. Qed.
+Print Assumptions C04_global_decl_refuted.
+
+(* no bind-once restriction: for every list of binding statements (any order, re-bindings, uses anywhere) the member
+   table of the visitor and CPython's final namespace give each name the same dotted path (flow-insensitive reading:
+   the last binding wins), unless that last binding is an import of the scope's own member, which the visitor skips *)
+Theorem C04_members_last_wins : forall mrev is_init scope ss ps n,
+  p_members mrev is_init ss = Some ps ->
+  silent_last mrev is_init scope ss n = false ->
+  option_map (den scope n) (lookup n (g_members mrev is_init scope ss)) = option_map (den scope n) (lookup n ps).
+Proof. exact members_last_wins. Qed.
+Print Assumptions C04_members_last_wins.
+
+(* dotted chains over either form of the walk *)
+Theorem C04_attribute_chain_segmentwise_v : forall sk c x,
+  attr_canonical_v sk c x = dotted_from (canonical_v sk c (aroot x)) (asegs x).
+Proof. exact attribute_chain_segmentwise_v. Qed.
+Print Assumptions C04_attribute_chain_segmentwise_v.
+
+Theorem C04_attribute_chain_prefixes_v : forall sk c x k e,
+  nth_error (build_attr x) k = Some e ->
+  e_canonical_v sk c e = dotted_from (canonical_v sk c (aroot x)) (firstn k (asegs x)).
+Proof. exact attribute_chain_prefixes_v. Qed.
+Print Assumptions C04_attribute_chain_prefixes_v.
